@@ -247,6 +247,10 @@ def handleKernel (j : Json) : Except String Verdict := do
   pure { agree := agreeWhy.isEmpty, spec := specFails.isEmpty, model := modelOut, tags,
          why := ";".intercalate (specFails ++ agreeWhy.take 4) }
 
+/-- what the file of `k` holds plus what is still buffered for it (`none`: no file, no file trace) -/
+def modelContent (st : MState) (k : Key) : Option (List Line) :=
+  if (st.disk k).isSome || ((st.slots k).bind (·.file)).isSome then some (content st k) else none
+
 def handleApi (j : Json) : Except String Verdict := do
   let evs ← (← fArr j "evs").mapM parseEv
   let thresholds := (← asInts (← field j "thresholds")).map Int.toNat
@@ -265,7 +269,7 @@ def handleApi (j : Json) : Except String Verdict := do
     if st.fault || err.isSome then
       (if st.fault = err.isSome then [] else [s!"fault@{n}:model={st.fault}"])
     else
-      files.filterMap (fun f => if st.disk f.1 = f.2 then none else some s!"file@{n}:{keyStr f.1}") ++
+      files.filterMap (fun f => if modelContent st f.1 = f.2 then none else some s!"file@{n}:{keyStr f.1}") ++
       cons.filterMap (fun f => if some (st.consumed f.1) = f.2 then none else some s!"consumed@{n}:{keyStr f.1}"))
   -- spec on the implementation: no restart ⇒ same files at every threshold; a trace kept both ways
   -- delivers the same lines in memory as in the file
@@ -290,7 +294,7 @@ def handleApi (j : Json) : Except String Verdict := do
     (if results.any (fun (n, _, files, _, _) => files.any (fun f => match f.2 with
         | some ls => decide (ls.length > n) | none => false)) then ["flushed"] else []))
   let modelOut := Json.mkObj (results.map (fun (n, st, _, _, _) =>
-    (toString n, Json.mkObj [("files", filesJson (keys.map (fun k => (k, st.disk k)))),
+    (toString n, Json.mkObj [("files", filesJson (keys.map (fun k => (k, modelContent st k)))),
                              ("consumed", filesJson (keys.map (fun k => (k, some (st.consumed k))))),
                              ("fault", Json.bool st.fault)])))
   pure { agree := diffs.isEmpty, spec := specFails.isEmpty, model := modelOut, tags,
